@@ -449,7 +449,9 @@ Definition pred_c12 (g : ghost) (w : world) (a : action) (O : oracle) (w' : worl
               let rc := aget f_recovery_code vals in
               if bempty rc then
                 match user_of w U with
-                | Some u => if beqb (u_totp_last u) (aget f_code vals) then [1124] else []
+                | Some u => (* the same code: as the validator reads it, i.e. without surrounding white space *)
+                            if negb (bempty (u_totp_last u)) && beqb (trim_space (u_totp_last u)) (trim_space (aget f_code vals))
+                            then [1124] else []
                 | None => [] end
               else (if used_before g U rc then [1122] else []) ++ (if rc_valid u' rc then [1123] else [])
           | RSmsValidate, Some u' =>
